@@ -137,6 +137,8 @@ func setupProfile(e *Env, o core.RunOpts) error {
 		return setupTransition(e, o)
 	case "C06", "C07", "C15", "C16":
 		return setupFeeds(e, o)
+	case "C12":
+		return setupRelay(e, o)
 	case "C14":
 		return setupEconomy(e, o)
 	case "C08", "C17":
@@ -546,6 +548,41 @@ func setupEconomy(e *Env, o core.RunOpts) error {
 	e.MaxSteps = e.Ch.Range("cfg.steps", 40, 110)
 	if o.Thorough {
 		e.MaxSteps = e.Ch.Range("cfg.steps", 60, 220)
+	}
+	return nil
+}
+
+// setupRelay: oracle results accumulate while the conductor varies who signs, rounds, vote timestamps, chain id and heights;
+// the real proof service answers over a stub node.
+func setupRelay(e *Env, o core.RunOpts) error {
+	tokens := drawValTokens(e, 1, 7)
+	op := drawOracleParams(e)
+	op.ExpirationBlockCount = uint64(e.Ch.Range("cfg.relay.exp", 2, 5))
+	e.Shared["oracle.genesis.params"] = op
+	ids := []string{"b", "band-laozi", "simband", "laozi-mainnet", "band-testnet-0017"}
+	heights := []int64{1, 1, 120, 127, 16380, 2097150, 34359738360, 1099511627770}
+	cfg := world.Config{Seed: o.Seed, ChainID: ids[e.Ch.Intn("cfg.relay.chainid", len(ids))], ValTokens: tokens, NumUsers: 5, Replicas: 1, GenesisTime: baseTime,
+		InitialHeight: heights[e.Ch.Intn("cfg.relay.initheight", len(heights))]}
+	e.Desc("relay: chain id %q initial height %d", cfg.ChainID, cfg.InitialHeight)
+	faults := world.Faults{TxDelay: 50, Reorder: 300, AbsentVote: 300, NilVote: 150, RoundGT0: 300, SubSecond: 150, TimeJump: 20}
+	var dss []dsSpec
+	treas := world.NewAccount(o.Seed, "treasury")
+	for i := 0; i < 4; i++ {
+		dss = append(dss, dsSpec{Fee: sdk.NewCoins(), Treasury: treas, Exec: []byte("x")})
+	}
+	cfg.GenesisMods = append(cfg.GenesisMods, govGenesis(4*time.Second), oracleGenesis(e, op, dss))
+	w, err := world.New(e.Ch, e.Log, e.St, cfg, o.Scratch)
+	if err != nil {
+		return err
+	}
+	e.W = w
+	w.F = faults
+	e.Actors = append(e.Actors, &OracleActor{MaxOpen: 6, ReqRate: 500 + e.Ch.Intn("cfg.relay.reqrate", 400), Scripts: []int{scriptEcho, scriptSimple, scriptNoRet}, NumDS: len(dss), ActivateP: 1000,
+		ReactivateP: 200, PolicyW: []int{60, 20, 10, 0, 0, 0, 10}})
+	e.Monitors = append(e.Monitors, &C12{}, NewC01(), &C09{})
+	e.MaxSteps = e.Ch.Range("cfg.steps", 40, 120)
+	if o.Thorough {
+		e.MaxSteps = e.Ch.Range("cfg.steps", 80, 300)
 	}
 	return nil
 }
